@@ -1,5 +1,4 @@
 import BridgeVerif.Lemmas.Auction
-import BridgeVerif.Translated.Auction
 /-!
 # C01 — The auction accepts exactly the calls the Laws of bridge allow
 
@@ -68,41 +67,6 @@ theorem illegal_reported_and_state_unchanged (d : Seat) (v : Vul) (s : AState) (
   have ho' : over h = false := by rw [over_eq_endedB d h hr.leg]; exact ho
   rw [legalLaw_eq_legal d h hr.leg] at hl
   exact (take_bid_refines d v s h hr.inv c).2.1 ho' hl
-
-/-! ## The same, for `BiddingPhase` AS TRANSLATED from bridge_env/bidding_phase.py on this run
-(`Generated/PyCore.lean` executed by the MiniPy interpreter; `Translated/Auction.lean` proves by symbolic execution
-that the translated `__init__` / `take_bid` ARE the model's `AState.init` / `takeBid` on every state and call) -/
-
-/-- how an answer of the model reads as a result of the translated `take_bid` -/
-def encAnswer : Except Unit Res → Except Py.Err Py.Val
-  | .error () => .error (.exc Py.K.Exception)
-  | .ok r => .ok (Translated.encRes r)
-
-open Bridge.Py Bridge.Generated.PyCore in
-/-- **The code as translated.**  Construct the translated `BiddingPhase(dealer, vul)` and offer it ANY sequence of
-calls: every answer (`ILLEGAL` / `ONGOING` / `FINISHED` / the exception after the end) is the Laws' answer, and the
-object left behind is the encoding of a state whose history is exactly the Laws' accepted calls and whose 38-slot
-vector is exactly the legal set while the auction is open. -/
-theorem translated_auction_refines_laws (d : Seat) (v : Vul) (ops : List Call) :
-    ∃ s : AState,
-      Translated.P.runNew n_BiddingPhase [Translated.encSeat d, Translated.encVul v]
-        = .ok (Translated.encState (AState.init d v)) ∧
-      Translated.runTranslated (Translated.encState (AState.init d v)) ops
-        = (Translated.encState s, (answersLaw d [] ops).map encAnswer) ∧
-      s.history = acceptedLaw d [] ops ∧ LegalLaw d s.history ∧
-      (endedB s.history = false → ∀ c, s.avail c = legalLaw d s.history c) := by
-  obtain ⟨h1, h2, h3, h4⟩ := auction_refines_laws d v ops
-  refine ⟨(runAuction (AState.init d v) ops).1, Translated.init_translated d v, ?_, h1, h3, h4⟩
-  rw [Translated.run_translated, h2]
-  congr 1
-
-/-- one step: the translated `take_bid` on the encoding of ANY model state is the model's `takeBid` -/
-theorem translated_take_bid_is_model (s : AState) (c : Call) :
-    Translated.P.runMethod Generated.PyCore.n_BiddingPhase Generated.PyCore.n_take_bid [Translated.encState s, Translated.encCall c] =
-      match takeBid s c with
-      | .error () => .error (.exc Py.K.Exception)
-      | .ok (s', r) => .ok (Translated.encRes r, Translated.encState s') :=
-  Translated.take_bid_translated s c
 
 /-! ### non-vacuity: N deals, history 1C X XX P P 1D (newest first below): the legal set is exactly
 {Pass, X, every bid above 1D}; in particular XX and 1C, 1D are refused. -/
